@@ -46,6 +46,10 @@ def runs(tier):
     # documented error paths: an inadmissible call raises and changes no live object
     out.append(dict(name='rej', constants=dict(base, MaxD=2, DimsR={2}, DimsC={1, 2}, RanksS={2}, Scenarios={'pair', 'openpair'}, MaxDepth=1,
                                                OpsAt=[{'Reject'}], KindPairs=real)))
+    # constructors: a result is swept in place, then the same constructor is asked again (no module-level state shared by results)
+    CT = {'Zeros', 'Ones', 'Eye', 'Unit', 'Uniform'}
+    out.append(dict(name='ctor3', nshards=4, constants=dict(base, MaxD=2, DimsR={2}, DimsC={2}, RanksS={1}, MaxDepth=3, Scenarios={'ctor'},
+                                                            OpsAt=[CT, {'OrthoLeft', 'OrthoRight', 'Ortho'}, CT], KindPairs=real)))
     # two producers then one in-place call (two live results of the same operand)
     out.append(dict(name='u3', constants=dict(base, MaxD=2 if q else 3, MaxDepth=3, Scenarios={'single'},
                                               OpsAt=[{'SMul', 'Copy', 'Transpose', 'Conj', 'RankTranspose', 'Diag'},
